@@ -148,6 +148,22 @@ func c06Eng(cfg c06Config, width uint64, v *big.Int, sub *eng.Subst) (string, st
 	}
 	res, _ := gad.Run(opt, []*big.Int{v, big.NewInt(0)}, c06Gadget(width, pad))
 	want := inRange(v, width)
+	if !want && res.Outcome == eng.Reject && pad == 0 {
+		// second attempt of the same out-of-range value with gnark's own bit-decomposition hint
+		// answered dishonestly (digits = (value,0,0,..)) and, for the Goldilocks check, limbs (0, v)
+		opt2 := opt
+		opt2.LumpBits = true
+		if width == 0 {
+			opt2.Plan = eng.Plan{0: eng.Subst{Strategy: "set", Vals: []*big.Int{big.NewInt(0), v}}}
+		}
+		if r2, _ := gad.Run(opt2, []*big.Int{v, big.NewInt(0)}, c06Gadget(width, pad)); r2.Outcome == eng.Accept {
+			name := "RangeCheck"
+			if width != 0 {
+				name = fmt.Sprintf("RangeCheckWithMaxBits(%d)", width)
+			}
+			return "dishonest-digits/" + cfg.String(), fmt.Sprintf("%s(%s) under %s is satisfiable when the bit-decomposition hint returns non-boolean digits (%d such hints answered)", name, v, cfg, r2.LumpedBits), r2
+		}
+	}
 	name := "RangeCheck"
 	if width != 0 {
 		name = fmt.Sprintf("RangeCheckWithMaxBits(%d)", width)
@@ -213,6 +229,29 @@ func c06Compiled(k c06SysKey, v *big.Int, override solver.Hint) (string, string)
 	}
 	serr := sys.Solve([]*big.Int{v, big.NewInt(0)}, nil, opts...)
 	got, want := serr == nil, inRange(v, k.width)
+	if !want && !got && override == nil && k.mech != cs.MechCommit {
+		// dishonest gnark bit-decomposition hint (digits = (value,0,0,...)), plus limbs (0,v) for the Goldilocks check
+		if nb := findNBits(); nb != nil {
+			lump := func(q *big.Int, in, out []*big.Int) error {
+				for i := range out {
+					out[i].SetInt64(0)
+				}
+				out[0].Set(in[0])
+				return nil
+			}
+			o2 := []solver.Option{solver.OverrideHint(solver.GetHintID(nb), lump)}
+			if k.width == 0 {
+				o2 = append(o2, solver.OverrideHint(solver.GetHintID(gl.SplitLimbsHint), func(q *big.Int, in, out []*big.Int) error {
+					out[0].SetInt64(0)
+					out[1].Set(in[0])
+					return nil
+				}))
+			}
+			if sys.Solve([]*big.Int{v, big.NewInt(0)}, nil, o2...) == nil {
+				return fmt.Sprintf("dishonest-digits/%s/%s", k.kind, k.mech), fmt.Sprintf("%s value %s is satisfiable when the bit-decomposition hint returns non-boolean digits", name, v)
+			}
+		}
+	}
 	if override == nil && got != want {
 		return fmt.Sprintf("exact/%s/%s/%v", k.kind, k.mech, want), fmt.Sprintf("%s value %s: solved=%v, in range=%v (%v)", name, v, got, want, serr)
 	}
